@@ -87,9 +87,28 @@ Example C11_ex_two_slashes :
   slash_undel_all 1000000 1000000 [600000000000000000; 857000000000000000] = [400000; 0].
 Proof. reflexivity. Qed.
 
+(* stored price strings: "" (round closed without submissions), non-numeric, zero and negative prices all fall back to
+   the default price; the value used is always positive *)
+Theorem C11_price_value_total : forall parsed, exists v, price_value parsed = Ok v /\ 0 < v.
+Proof. exact price_value_total. Qed.
+
+(* the validator set handed to CometBFT at a dogfood epoch end is accepted as long as SOME operator stays eligible
+   (opted in, not jailed, self delegation >= minimum, power >= 1); that invariant is NOT preserved by ordinary
+   transactions: three histories (all opt out / all drop below the minimum self delegation / all jailed) make the
+   real engine refuse the update list = halted chain. NOT repaired: known finding C11-empty-validator-set *)
+Theorem C11_valset_nonempty : forall minself nprev ops,
+  existsb (eligible minself) ops = true -> valset_epoch_end minself nprev ops <> None.
+Proof. exact valset_nonempty. Qed.
+Theorem C11_valset_nonempty_invariant_refuted :
+  existsb (eligible 100) v3 = true /\
+  valset_epoch_end 100 3 (fold_left vstep h_all_opt_out v3) = None /\
+  valset_epoch_end 100 3 (fold_left vstep h_all_below_min v3) = None /\
+  valset_epoch_end 100 3 (fold_left vstep h_all_jailed v3) = None.
+Proof. exact valset_empty_witnesses. Qed.
+
 (* the full statement - no history halts the chain - is therefore NOT proved: the event set of [run] leaves out the
-   arithmetic overflow guards of sdk.Int / LegacyDec (refuted above for the voting power) and everything listed as not
-   modelled in design/C11.md *)
+   arithmetic overflow guards of sdk.Int / LegacyDec (refuted above for the voting power), the empty validator set
+   (refuted above) and everything listed as not modelled in design/C11.md *)
 Definition C11_no_halt_full : Prop :=
   forall (h : list event) (s : state) (sh a : Z), inv s = true ->
     (exists s', run DErr s h = Some s') /\ is_panic (voting_power_gen sh a) = false.
